@@ -13,7 +13,53 @@ def first_arm_types(body, what):
     return re.findall(r'GarnishDataType::(\w+)', m.group(1))
 
 
-def generate(repo):
+def behavioural_sites():
+    """the three falsy sets read off the COMPILED handlers: one representative value of every data type under Not
+    (is_true_value), JumpIfTrue and JumpIfFalse on both stores; used when the source no longer has the `match` form the
+    extraction expects (a refactoring into `matches!`, a helper predicate, ...)"""
+    import subprocess, tempfile
+    from gen import tables_dump, opgen
+    hb = tables_dump.harness_bin()
+    if not os.path.exists(hb):
+        return None
+    rows = []
+    for ty, reps in opgen.REPS.items():
+        for rep in reps:
+            for st in ('simple', 'basic'):
+                for ins in ('Not', 'JumpIfTrue', 'JumpIfFalse'):
+                    rows.append((ty, ins, f'OP\t{len(rows)}\t{st}\t{ins}\tdecline\t{rep}\t-'))
+    with tempfile.NamedTemporaryFile('w', suffix='.cases', delete=False) as f:
+        f.write('\n'.join(r[2] for r in rows) + '\n')
+        path = f.name
+    out = subprocess.run([hb, path], stdout=subprocess.PIPE, stderr=subprocess.DEVNULL, timeout=120).stdout.decode('utf-8', 'replace').split('\n')
+    os.unlink(path)
+    res = {}
+    for line in out:
+        if '\t' in line:
+            i, r = line.split('\t', 1)
+            res[int(i)] = r
+    falsy = {'isTrueValue': set(), 'jumpIfTrue': set(), 'jumpIfFalse': set()}
+    truthy = {'isTrueValue': set(), 'jumpIfTrue': set(), 'jumpIfFalse': set()}
+    for k, (ty, ins, _) in enumerate(rows):
+        r = res.get(k, '')
+        if not r.startswith('ok '):
+            continue          # the store cannot hold this representative
+        if ins == 'Not':
+            site, is_false = 'isTrueValue', r.startswith('ok T ')
+        elif ins == 'JumpIfTrue':
+            site, is_false = 'jumpIfTrue', ' next=1 ' in r
+        else:
+            site, is_false = 'jumpIfFalse', ' next=42 ' in r
+        (falsy if is_false else truthy)[site].add(ty)
+    sites = {}
+    for site in falsy:
+        if falsy[site] & truthy[site]:
+            raise ValueError(f'{site}: a data type is classified both ways: {sorted(falsy[site] & truthy[site])}')
+        sites[site] = [t for t in ('False', 'Unit') if t in falsy[site]] + sorted(falsy[site] - {'False', 'Unit'})
+    return sites
+
+
+def extract_sites(repo):
     logical = open(os.path.join(repo, 'runtime/src/runtime/logical.rs'), encoding='utf-8').read()
     jumps = open(os.path.join(repo, 'runtime/src/runtime/jumps.rs'), encoding='utf-8').read()
     sites = {}
@@ -33,8 +79,37 @@ def generate(repo):
     arm = b[b.index('GarnishDataType::'):]
     if 'Ok(Some(point))' not in re.split(r'\bt\s*=>', arm)[0]:
         raise ValueError('jump_if_false: first arm is expected to jump (Ok(Some(point)))')
-    # which logical handlers go through is_true_value
-    users = [f for f in ['and', 'or', 'xor', 'not', 'tis'] if 'is_true_value(' in fn_body(logical, f)]
+    return sites
+
+
+def generate(repo):
+    source = 'source text'
+    try:
+        sites = extract_sites(repo)
+    except (ValueError, IndexError) as e:
+        sites = behavioural_sites()
+        if sites is None:
+            raise
+        source = f'compiled code (behavioural dump through the harness; the source form was not recognised: {e})'
+    logical = open(os.path.join(repo, 'runtime/src/runtime/logical.rs'), encoding='utf-8').read()
+    # which logical handlers go through is_true_value (informational)
+    # (directly or through private helpers of the same file: transitive closure of the calls inside logical.rs)
+    fns = re.findall(r'\bfn\s+([A-Za-z_0-9]+)', logical.split('#[cfg(test)]')[0])
+    calls = {}
+    for f in fns:
+        try:
+            b = fn_body(logical, f)
+        except Exception:
+            continue
+        calls[f] = {g for g in fns if g != f and re.search(r'\b' + g + r'\s*(::<[^>]*>)?\s*\(', b)}
+    reach = {f for f, cs in calls.items() if 'is_true_value' in cs}
+    changed = True
+    while changed:
+        changed = False
+        for f, cs in calls.items():
+            if f not in reach and cs & reach:
+                reach.add(f); changed = True
+    users = [f for f in ['and', 'or', 'xor', 'not', 'tis'] if f in reach]
     out = ['/- GENERATED by tools/gen_tables.py from runtime/src/runtime/{logical,jumps}.rs — do not edit. -/',
            'import Garnish.Gen.Enums', 'namespace Garnish.Gen', '']
     for k, tys in sites.items():
@@ -44,4 +119,4 @@ def generate(repo):
     out.append('def isTrueValueUsers : List String := [' + ', '.join(f'"{u}"' for u in users) + ']')
     out.append('')
     out.append('end Garnish.Gen')
-    return {'Garnish/Gen/RuntimeTables.lean': '\n'.join(out) + '\n'}, {'falsy': sites, 'isTrueValueUsers': users}
+    return {'Garnish/Gen/RuntimeTables.lean': '\n'.join(out) + '\n'}, {'falsy': sites, 'isTrueValueUsers': users, 'source': source}
